@@ -235,6 +235,27 @@ fn drive_v3(stream: &[u8], a: usize, bounds: &[usize], prop: &str, obs: &mut dyn
                 }
             }
             c = it.consumed();
+            // polling the same iterator again after it returned None (no new data can have arrived:
+            // it borrows the buffer) must stay None and must not move consumed(), exactly like a
+            // repeated scanner call on an unchanged buffer
+            for _ in 0..2 {
+                let again = (&mut it).next().is_some();
+                let c2 = it.consumed();
+                if again || c2 != c {
+                    return Err(breach(
+                        prop,
+                        "C05.e",
+                        format!(
+                            "iterator polled again after returning None over an unchanged buffer of {} bytes at abs {}: {} and consumed() moved from {} to {}",
+                            tail.len(),
+                            base,
+                            if again { "it yielded another frame" } else { "it returned None" },
+                            c,
+                            c2
+                        ),
+                    ));
+                }
+            }
         }
         out.scans += nexts as u64;
         obs.on_iter(&tail, base, &frames, c, nexts)?;
